@@ -230,13 +230,16 @@ Definition fin_ok (sN : astate) (restN : list event) : Prop :=
       c_rep0 (a_coder sE) = 4294967295 /\ a_hist sE = rev data ++ hist0 /\ a_pend_len sE = 0
   else restN = [].
 
-(* the reader after k bytes, between two iterations *)
-Definition Inv (k : nat) (s : lzma1) : Prop :=
+(* the reader after k bytes, between two iterations.  [strict = false] also admits the state right
+   after construction with a preset dictionary that fills the window completely (pos = buf_size):
+   the first iteration then produces nothing and flush() wraps the position. *)
+Definition InvG (strict : bool) (k : nat) (s : lzma1) : Prop :=
   (k <= N)%nat /\
   exists hist done rest sN restN,
     E = done ++ rest /\
     rc_sim E PLeaf tail done (l_rc s) (l_probs s) /\
-    Rel (l_win s) hist /\ w_start (l_win s) = w_pos (l_win s) /\ w_pos (l_win s) < w_size (l_win s) /\
+    Rel (l_win s) hist /\ w_start (l_win s) = w_pos (l_win s) /\
+    (strict = true -> w_pos (l_win s) < w_size (l_win s)) /\
     w_size (l_win s) = W /\
     coder_ok (l_coder s) (w_full (l_win s)) /\
     (0 < w_pending_len (l_win s) -> 0 <= w_pending_dist (l_win s) < w_full (l_win s)) /\
@@ -246,6 +249,16 @@ Definition Inv (k : nat) (s : lzma1) : Prop :=
     fin_ok sN restN /\
     l_end_reached s = false /\
     l_remaining s = (if marker then U64_MAX else Z.of_nat (N - k)).
+
+Notation Inv := (InvG true).
+
+Lemma Inv_weaken strict k s : Inv k s -> InvG strict k s.
+Proof.
+  intros (HkN & hist & done & rest & sN & restN & HE & Hsim & R & Hst & Hpos & H).
+  split; [exact HkN|]. exists hist, done, rest, sN, restN.
+  split; [exact HE|]. split; [exact Hsim|]. split; [exact R|]. split; [exact Hst|].
+  split; [intros _; apply Hpos; reflexivity | exact H].
+Qed.
 
 Definition Ended (s : lzma1) : Prop := l_end_reached s = true /\ rd_in (l_rc s) = tail.
 
@@ -259,9 +272,9 @@ Proof.
   exists sE'. split; [exact Hrun'|]. split; [congruence|]. split; congruence.
 Qed.
 
-Lemma iter_step k s len : Inv k s -> 0 < len ->
+Lemma iter_step strict k s len : InvG strict k s -> 0 < len ->
   exists m s', lzma1_iter s len = Ok (seg data k m, s') /\ Z.of_nat m <= len /\ (k + m <= N)%nat /\
-    ((Ended s' /\ (k + m = N)%nat) \/ (Inv (k + m) s' /\ (0 < m)%nat)).
+    ((Ended s' /\ (k + m = N)%nat) \/ (Inv (k + m) s' /\ (strict = true -> (0 < m)%nat))).
 Proof.
   intros (HkN & hist & done & rest & sN & restN & HE & Hsim & R & Hst & Hpos & Hsz & Hco & Hpd & Hrun & Hfin & Hend & Hrem) Hlen.
   set (w := l_win s) in *.
@@ -329,7 +342,7 @@ Proof.
       destruct (run_trace_aeqv _ _ _ _ _ _ _ Haeq Hwfr1 Hrun2) as (sN' & Hrun2' & HaN).
       exists (a_hist s1), (done ++ evs1), r1, sN', restN. cbn [l_coder l_win l_rc l_probs l_end_reached l_remaining].
       split; [rewrite <- app_assoc, <- Hrest; exact HE|].
-      split; [exact Hsim1|]. split; [exact R2|]. split; [exact Hst2|]. split; [exact Hfp|].
+      split; [exact Hsim1|]. split; [exact R2|]. split; [exact Hst2|]. split; [intros _; exact Hfp|].
       split; [change (w_size w') with (w_size w) in Hsz1; congruence|].
       split; [rewrite Hff; exact Hco1|].
       split; [intros Hp; rewrite Hpl2, Hpl1 in Hp; destruct (Hpd1 Hp) as (Hq1 & Hq2); rewrite Hpd2, Hq1, Hff; exact Hq2|].
@@ -339,7 +352,7 @@ Proof.
     destruct marker.
     + change (U64_MAX <=? U64_HALF) with false. cbn [andb].
       exists b. eexists. split; [rewrite Hout'; reflexivity|]. split; [exact Hblen|]. split; [lia|].
-      right. split; [apply Hcont; reflexivity|]. specialize (HcsmM eq_refl). lia.
+      right. split; [apply Hcont; reflexivity|]. intros Hs. specialize (Hpos Hs). specialize (HcsmM eq_refl). lia.
     + assert (Hs' : Z.of_nat (N - k) <= U64_HALF) by (unfold zlen in Hsmall; lia).
       destruct (Z.leb_spec (Z.of_nat (N - k)) U64_HALF); [|lia]. cbn [andb].
       destruct (Z.eqb_spec (Z.of_nat (N - k) - Z.of_nat b) 0) as [Hz|Hnz].
@@ -353,7 +366,7 @@ Proof.
         rewrite Hnorm in Hin. exact Hin.
       * destruct (lzwin_has_pending w2); cbn [andb];
         exists b; eexists; (split; [rewrite Hout'; reflexivity|]); (split; [exact Hblen|]); (split; [lia|]);
-        right; (split; [apply Hcont; lia|]); specialize (HcsmD eq_refl); lia.
+        right; (split; [apply Hcont; lia|]); intros Hs; specialize (Hpos Hs); specialize (HcsmD eq_refl); lia.
   - (* the call runs into the end marker *)
     pose proof Hfin as (HH & HplN & Hmode).
     destruct marker; [|specialize (HcsmD eq_refl); lia].
@@ -390,7 +403,7 @@ Proof.
     destruct (rc_sim_end _ _ _ _ _ Hsim1) as (_ & Hin & _). exact Hin.
 Qed.
 
-Lemma Inv_not_ended k s : Inv k s -> l_end_reached s = false.
+Lemma Inv_not_ended strict k s : InvG strict k s -> l_end_reached s = false.
 Proof. intros (_ & hist & done & rest & sN & restN & H). tauto. Qed.
 
 Lemma rev_rev_append {A} (out acc : list A) : rev (rev_append out acc) = rev acc ++ out.
@@ -410,13 +423,13 @@ Proof.
     + assert (len = 0) by lia. subst len.
       exists 0%nat, s. rewrite frev_rev, seg_nil, app_nil_r, Nat.add_0_r.
       split; [reflexivity|]. split; [lia|]. split; [destruct HI; lia|]. right. split; [exact HI | reflexivity].
-    + destruct (iter_step k s len HI Hpos) as (m1 & s1 & Hit & Hm1 & Hk1 & Hcase).
+    + destruct (iter_step true k s len HI Hpos) as (m1 & s1 & Hit & Hm1 & Hk1 & Hcase).
       rewrite Hit. cbn [obind].
       assert (Hzl : zlen (seg data k m1) = Z.of_nat m1) by (unfold zlen; rewrite seg_length; lia).
       destruct Hcase as [((He & Hin) & HkN)|(HI1 & Hm1pos)].
       * rewrite He. exists m1, s1. rewrite frev_rev, rev_rev_append.
         split; [reflexivity|]. split; [exact Hm1|]. split; [exact Hk1|]. left. split; [split; assumption | exact HkN].
-      * rewrite (Inv_not_ended _ _ HI1). rewrite Hzl.
+      * specialize (Hm1pos eq_refl). rewrite (Inv_not_ended _ _ _ HI1). rewrite Hzl.
         destruct (IH (k + m1)%nat s1 (len - Z.of_nat m1) (rev_append (seg data k m1) acc) HI1 ltac:(lia))
           as (m2 & s' & Hloop & Hm2 & Hk2 & Hcase2).
         exists (m1 + m2)%nat, s'. rewrite Hloop, rev_rev_append, <- app_assoc, seg_app.
@@ -431,13 +444,35 @@ Proof. intros H. unfold lzma1_read. destruct (Z.leb_spec buflen 0); [reflexivity
 Lemma read_ended s buflen : l_end_reached s = true -> lzma1_read s buflen = Ok ([], s).
 Proof. intros H. unfold lzma1_read. rewrite H. destruct (buflen <=? 0); reflexivity. Qed.
 
-Lemma read_steps k s buflen : Inv k s -> 0 < buflen ->
+(* the same from a state whose window may be full: at most one iteration without progress *)
+Lemma loop_steps_weak fuel strict k s len acc : InvG strict k s -> 0 < len -> len + 1 <= Z.of_nat fuel ->
+  exists m s', lzma1_read_loop fuel s len acc = Ok (rev acc ++ seg data k m, s') /\
+    Z.of_nat m <= len /\ (k + m <= N)%nat /\
+    ((Ended s' /\ (k + m = N)%nat) \/ (Inv (k + m) s' /\ Z.of_nat m = len)).
+Proof.
+  intros HI Hlen Hf. destruct fuel as [|f]; [lia|].
+  cbn [lzma1_read_loop]. destruct (Z.leb_spec len 0) as [Hz|_]; [lia|].
+  destruct (iter_step strict k s len HI Hlen) as (m1 & s1 & Hit & Hm1 & Hk1 & Hcase).
+  rewrite Hit. cbn [obind].
+  assert (Hzl : zlen (seg data k m1) = Z.of_nat m1) by (unfold zlen; rewrite seg_length; lia).
+  destruct Hcase as [((He & Hin) & HkN)|(HI1 & _)].
+  - rewrite He. exists m1, s1. rewrite frev_rev, rev_rev_append.
+    split; [reflexivity|]. split; [exact Hm1|]. split; [exact Hk1|]. left. split; [split; assumption | exact HkN].
+  - rewrite (Inv_not_ended _ _ _ HI1). rewrite Hzl.
+    destruct (loop_steps f (k + m1)%nat s1 (len - Z.of_nat m1) (rev_append (seg data k m1) acc) HI1 ltac:(lia))
+      as (m2 & s' & Hloop & Hm2 & Hk2 & Hcase2).
+    exists (m1 + m2)%nat, s'. rewrite Hloop, rev_rev_append, <- app_assoc, seg_app.
+    split; [reflexivity|]. split; [lia|]. split; [lia|].
+    rewrite Nat.add_assoc. destruct Hcase2 as [(He2 & HkN2)|(HI2 & Hm2eq)]; [left | right]; split; try assumption; lia.
+Qed.
+
+Lemma read_steps strict k s buflen : InvG strict k s -> 0 < buflen ->
   exists m s', lzma1_read s buflen = Ok (seg data k m, s') /\ (k + m <= N)%nat /\
     ((Ended s' /\ (k + m = N)%nat) \/ (Inv (k + m) s' /\ Z.of_nat m = buflen)).
 Proof.
   intros HI Hb. unfold lzma1_read. destruct (Z.leb_spec buflen 0); [lia|].
-  rewrite (Inv_not_ended _ _ HI).
-  destruct (loop_steps (Z.to_nat (buflen + 2)) k s buflen [] HI ltac:(lia)) as (m & s' & Hl & _ & Hk & Hc).
+  rewrite (Inv_not_ended _ _ _ HI).
+  destruct (loop_steps_weak (Z.to_nat (buflen + 2)) strict k s buflen [] HI Hb ltac:(lia)) as (m & s' & Hl & _ & Hk & Hc).
   exists m, s'. rewrite Hl. cbn [rev app]. split; [reflexivity|]. split; assumption.
 Qed.
 
@@ -454,11 +489,11 @@ Proof.
     rewrite frev_rev. reflexivity.
 Qed.
 
-Lemma read_all_steps fuel : forall k s cur all acc, Inv k s ->
+Lemma read_all_steps fuel : forall strict k s cur all acc, InvG strict k s ->
   Forall (fun z => 0 < z) cur -> Forall (fun z => 0 < z) all -> (N - k + 2 <= fuel)%nat ->
   exists s_end, lzma1_read_all fuel s cur all acc = Ok (rev acc ++ seg data k (N - k), s_end) /\ Ended s_end.
 Proof.
-  induction fuel as [|f IH]; intros k s cur all acc HI Hc Ha Hf; [lia|].
+  induction fuel as [|f IH]; intros strict k s cur all acc HI Hc Ha Hf; [lia|].
   cbn [lzma1_read_all].
   set (sz := fst (match cur with [] => (4096, all) | x :: r => (x, r) end)).
   set (rest := snd (match cur with [] => (4096, all) | x :: r => (x, r) end)).
@@ -469,7 +504,7 @@ Proof.
     by (unfold sz, rest; destruct cur; reflexivity).
   assert (Hnext : Forall (fun z => 0 < z) (match rest with [] => all | _ => rest end))
     by (destruct rest; assumption).
-  destruct (read_steps k s sz HI Hsz) as (m & s1 & Hrd & Hk & Hcase).
+  destruct (read_steps strict k s sz HI Hsz) as (m & s1 & Hrd & Hk & Hcase).
   rewrite Hrd. cbn [obind].
   assert (Hzl : zlen (seg data k m) = Z.of_nat m) by (unfold zlen; rewrite seg_length; lia).
   destruct (Z.ltb_spec 0 sz); [|lia]. cbn [andb]. rewrite Hzl.
@@ -481,7 +516,7 @@ Proof.
       rewrite (read_all_ended f' s1 _ all _ He Hnext Ha). exists s1.
       rewrite rev_rev_append. replace (N - k)%nat with m by lia. split; [reflexivity | exact He].
   - destruct (Z.eqb_spec (Z.of_nat m) 0) as [Hm0|Hm0]; [lia|].
-    destruct (IH (k + m)%nat s1 (match rest with [] => all | _ => rest end) all (rev_append (seg data k m) acc)
+    destruct (IH true (k + m)%nat s1 (match rest with [] => all | _ => rest end) all (rev_append (seg data k m) acc)
                 HI1 Hnext Ha ltac:(lia)) as (s_end & Hra & He).
     exists s_end. rewrite Hra, rev_rev_append, <- app_assoc, seg_app.
     replace (m + (N - (k + m)))%nat with (N - k)%nat by lia. split; [reflexivity | exact He].
